@@ -256,6 +256,8 @@ int driverMain(int argc, char** argv, std::function<Engine*(const std::string&)>
     if (cfg.tier != "quick" && cfg.tier != "thorough") { fprintf(stderr, "bad tier\n"); return 2; }
     Engine* eng = factory(cfg.prop);
     if (!eng) { fprintf(stderr, "this engine does not serve property '%s'\n", cfg.prop.c_str()); return 2; }
+    // VERIF_BUILD: a scratch build directory (used when the checks are pointed at a scratch worktree, e.g. to try a seeded change without touching /repo and /verif/build)
+    if (const char* vb = getenv("VERIF_BUILD")) { cfg.workDir = std::string(vb) + "/work"; cfg.replayDir = std::string(vb) + "/replays"; mkdir(vb, 0755); }
     mkdir("/verif/build", 0755); mkdir(cfg.workDir.c_str(), 0755); mkdir(cfg.replayDir.c_str(), 0755);
     loadKnown(cfg.known, cfg.prop);
     g_run.trace = cfg.trace;
